@@ -156,7 +156,7 @@ def build_concrete(shape, values, solver_cfg=None, initialize=True):
 
 
 def _base(ctx, path):
-    return [formula.to_z3(x) for x in list(path.assume) + list(path.pc) + list(ctx.extra_assume)]
+    return [formula.to_z3(x) for x in list(path.assume) + list(path.pc) + list(getattr(ctx, "extra_assume", None) or [])]
 
 
 def witness_from_model(model, assertions, P):
@@ -198,6 +198,28 @@ def library_failure(fn):
                 return {"status": "sat", "queries": 1, "witness": {"params": {}, "pins": {}, "what": f"the library raised {type(e).__name__}: {str(e)[:200]}"}}
             raise
     return wrapped
+
+
+def crash_obligations(prop, shape_name, replayer, what):
+    """on_exception handler factory for shapes whose property promises a result for every valid input (a report, an
+    export, a chart): an exception raised by the library on a feasible path is a counterexample - the parameters
+    of the path are handed to `replayer`, which must reproduce the failure through the public API on the real
+    solver. Exceptions that surface in the harness or in z3 (a symbol reaching a concretisation point) stay errors."""
+    def handler(path):
+        if not raised_by_library(path.exc):
+            return None  # -> reported as a harness error by run_shape
+
+        def fn(ctx, p):
+            base = [formula.to_z3(x) for x in list(p.assume) + list(p.pc)]
+            v, m, _ = formula.solve(base, 20000)
+            if v != "sat":
+                return {"status": "unknown", "note": "path of the exception could not be realised"}
+            P = getattr(p, "P", None)
+            params = {n: (formula.val(m, t) if z3.is_expr(t) else t) for n, t in P.terms.items()} if P is not None else {}
+            exc = p.exc
+            return {"status": "sat", "queries": 1, "witness": {"params": params, "pins": {}, "what": f"{what}: the library raised {type(exc).__name__}: {str(exc)[:160]}"}}
+        return [Ob(f"{prop}/{shape_name}/library_does_not_raise", "custom", fn=fn, replayer=replayer)]
+    return handler
 
 
 def confirm_library_failure(replayer):
@@ -612,13 +634,13 @@ def run_shape(args):
                     except KeyError:
                         pass
                 handler = getattr(shape, "on_exception", None)
-                if handler is None:
+                obs = handler(path) if handler is not None else None
+                if obs is None:
                     out["results"].append({"id": f"{prop}/{shape.name}/no_exception", "kind": "exception",
                                            "status": "error", "path": path.tag(),
                                            "note": "".join(traceback.format_exception_only(type(path.exc), path.exc))[-400:],
                                            "path_cond": path.describe()})
                     continue
-                obs = handler(path)
             else:
                 ctx = path.out
                 if formula.solve(_base(ctx, path), 20000, want_model=False)[0] != "sat":
